@@ -26,7 +26,11 @@ where
   ) -> Subscription<'a> {
     let unsub_observer = observer.clone();
     let issub_observer = observer.clone();
-    self.source.call(observer.clone());
+    if observer.is_subscribed() {
+      // an observer that was cancelled before its turn (sibling inputs of merge/zip/amb, a trigger
+      // that fired synchronously) must not start another upstream
+      self.source.call(observer.clone());
+    }
     Subscription::new(
       move || {
         unsub_observer.unsubscribe();
